@@ -150,16 +150,61 @@ def enumerate_states(lg, rng, power_budget, base, max_power_points=10**9):
         if cname in ("abandon",):
             continue          # the harness's own file juggling, not the code under test
         nmut += 1
+        enumerate_states.final = fs.process_state()      # directory after the last mutation made by a call of the history
         phase = classify(op, wal_end)
         if op["op"] not in ("fsync", "dirsync"):
             out.append((cn, cname, op.get("n", idx), "process", "prefix", phase, keep(fs.process_state())))
         if power_budget > 0 and idx in power_at:
             for lab, st in fs.power_states(rng, power_budget):
                 out.append((cn, cname, op.get("n", idx), "power", lab, phase, keep(st)))
+    enumerate_states.keep = keep
     return out, len(ops), nmut, uniq
 
 
-def probe_states(uniq, base, reg, wd, jobs):
+def corruption_states(final, rng, quick, base, keep_fn):
+    """C20: single-byte flips per region class, zeroed regions and truncations of a committed, closed file.
+    Regions are located from the file's own header / footer (structure only, no memvid code)."""
+    data = final.get("m.mv2")
+    if not data or len(data) < 4096 + 56:
+        return []
+    n = len(data)
+    wal_off = int.from_bytes(data[16:24], "little")
+    wal_size = int.from_bytes(data[24:32], "little")
+    toc_off = int.from_bytes(data[8:16], "little")
+    data_start = wal_off + wal_size
+    classes = [("header.magic_version", 0, 8), ("header.footer_offset", 8, 16), ("header.wal_offset", 16, 24), ("header.wal_size", 24, 32),
+               ("header.wal_checkpoint", 32, 40), ("header.wal_sequence", 40, 48), ("header.toc_checksum", 48, 80), ("header.rest", 80, 4096),
+               ("wal", wal_off, data_start), ("data", data_start, min(toc_off, n)), ("toc", min(toc_off, n), max(min(toc_off, n), n - 56)), ("footer", n - 56, n)]
+    out = []
+    per = 6 if quick else 40
+    for cname, a, b in classes:
+        if b <= a:
+            continue
+        offs = sorted(set([a, b - 1] + [rng.randrange(a, b) for _ in range(per)]))
+        if cname == "wal":
+            # the used part of the log is at its start
+            offs = sorted(set(offs + [a + k for k in (0, 8, 9, 16, 47, 48, 60, 200, 500, 1000, 1500) if a + k < b]))
+        if cname == "data":
+            offs = sorted(set(offs + [a + k for k in range(0, min(b - a, 1400), 97 if quick else 23)]))
+        for off in offs:
+            img = bytearray(data)
+            img[off] ^= rng.choice([0x01, 0x10, 0x80, 0xFF])
+            st = {"m.mv2": bytes(img)}
+            out.append((cname, "flip", off, keep_fn(st)))
+        # zero the whole class / its first half
+        for (za, zb, lab) in ((a, b, "zero"), (a, a + max(1, (b - a) // 2), "zero-half")):
+            img = bytearray(data)
+            img[za:zb] = b"\0" * (zb - za)
+            if bytes(img) != data:
+                out.append((cname, lab, za, keep_fn({"m.mv2": bytes(img)})))
+        # truncate at the class boundary and in its middle
+        for cut in (a, (a + b) // 2):
+            if 0 < cut < n:
+                out.append((cname, "trunc", cut, keep_fn({"m.mv2": data[:cut]})))
+    return out
+
+
+def probe_states(uniq, base, reg, wd, jobs, force_r=()):
     """Runs the real recovery on each materialised directory; returns digest -> result."""
     keys = list(uniq)
     chunks = [keys[i::jobs] for i in range(jobs) if keys[i::jobs]]
@@ -169,7 +214,7 @@ def probe_states(uniq, base, reg, wd, jobs):
         lst = os.path.join(wd, "list%d.txt" % ci)
         with open(lst, "w") as f:
             for k, dg in enumerate(ch):
-                flags = ("d" if (k % 3 == 0) else "") + ("r" if (k % 3 == 1) else "")
+                flags = ("d" if (k % 3 == 0) else "") + ("r" if (k % 3 == 1 or dg in force_r) else "")
                 f.write("%s\t%s\t%s\n" % (dg, os.path.join(base, dg), flags))
         outp = os.path.join(wd, "probe%d.ndjson" % ci)
         remaining = list(ch)
@@ -206,8 +251,10 @@ def probe_states(uniq, base, reg, wd, jobs):
 
 
 def owner_of(ev, name):
-    if name in ("crash.panic", "crash.doctor.panic", "crash.ro.panic"):
+    if name in ("crash.panic", "crash.doctor.panic", "crash.ro.panic", "corrupt.panic"):
         return "C22"
+    if name.startswith("corrupt."):
+        return "C20"
     if name.startswith("crash.doctor"):
         return "C21"
     if name.startswith("crash.ro"):
@@ -234,7 +281,12 @@ def engine(tier, only=None):
         shutil.rmtree(sbase, ignore_errors=True)
         os.makedirs(sbase)
         states, nops, nmut, uniq = enumerate_states(lg, rng, (2 if quick else 5), sbase, max_power_points=(60 if quick else 400))
-        results = probe_states(uniq, sbase, reg, d, jobs)
+        corr = []
+        if hname in ("basic", "maintenance") or hname.startswith("random1"):
+            # C20: corruptions of the committed, closed file this history ends with
+            corr = corruption_states(enumerate_states.final, rng, quick, sbase, enumerate_states.keep)
+            stats["corruptions"] = stats.get("corruptions", 0) + len(corr)
+        results = probe_states(uniq, sbase, reg, d, jobs, force_r=set(c[3] for c in corr))
         shutil.rmtree(sbase, ignore_errors=True)
         ndist = len(uniq)
         stats["file_ops"] += nops
@@ -264,6 +316,17 @@ def engine(tier, only=None):
             if e.get("ev") != "reset":
                 for r in by_call.get(e.get("n"), []):
                     lines.append(json.dumps(r))
+        seen_c = set()
+        for (cname, ckind, off, dg) in corr:
+            if (cname, ckind, dg) in seen_c:
+                continue
+            seen_c.add((cname, ckind, dg))
+            r = dict(results[dg])
+            r.update({"ev": "corrupt", "run": 1, "cls": cname, "ckind": ckind, "off": off, "history": hname, "kind": "corrupt", "callname": "corrupt",
+                      "phase": cname, "variant": ckind, "at": off, "call": 0})
+            r.pop("tag", None)
+            r.pop("stage", None)
+            lines.append(json.dumps(r))
         tp = os.path.join(d, "trace.ndjson")
         with open(tp, "w") as f:
             f.write("\n".join(lines) + "\n")
@@ -279,7 +342,7 @@ def engine(tier, only=None):
         evs = dgn["events"]
         for (li, name) in dgn["mismatches"]:
             ev = evs[li - 1] if 0 < li <= len(evs) else {}
-            if ev.get("ev") != "crash":
+            if ev.get("ev") not in ("crash", "corrupt"):
                 continue
             inflight = next((e for e in evs[:li] if e.get("ev") not in ("reset", "crash") and e.get("n") == ev.get("call")), {})
             findings.append({"owner": owner_of(ev, name), "field": name, "kind": ev.get("kind"), "call": ev.get("callname"),
@@ -287,7 +350,7 @@ def engine(tier, only=None):
                              "grew": inflight.get("obs", {}).get("file", {}).get("wal_size", 65536) != 65536 and ev.get("callname") in ("put", "update"),
                              "err": (ev.get("res") or {}).get("err", ""),
                              "phase": ev.get("phase"), "variant": ev.get("variant"), "at": ev.get("at"), "history": ev.get("history"),
-                             "res": ev.get("res"), "scenario": [e["args"] for e in evs[:li] if e.get("ev") not in ("reset", "crash")]})
+                             "res": ev.get("res"), "scenario": [e["args"] for e in evs[:li] if e.get("ev") not in ("reset", "crash", "corrupt")]})
         if dgn.get("stuck_at") is not None and not dgn["mismatches"]:
             findings.append({"owner": "C02", "field": "no-action", "kind": "?", "call": "?", "phase": "?", "variant": "", "at": dgn["stuck_at"],
                              "history": "?", "res": None, "scenario": []})
@@ -299,7 +362,8 @@ PROP_TEXT = {
     "C02": "process crash at every file operation of every call",
     "C03": "power loss at every file operation (un-synced writes lost, reordered, torn; un-synced renames lost)",
     "C04": "crashes inside open-time recovery; a second open after recovery changes no frame",
-    "C22": "no panic / hang of open, second open, verify, timeline, doctor, open_read_only on any reconstructed directory",
+    "C22": "no panic / hang of open, second open, verify, timeline, doctor, open_read_only on any reconstructed or corrupted directory",
+    "C20": "single-byte flips (sampled per region class: every header field, log, payload/index data, TOC, footer), zeroed regions and truncations of the committed closed files two histories end with: after open, every read must return the original or fail, and verify(deep) must not pass when a read differs",
     "C21": "doctor + verify + second doctor + open on a copy of every third reconstructed directory: frames must be a state the history allows, verify Passed, second run Clean",
     "C18": "open_read_only + reads + verify on a copy of every third reconstructed directory: the file must stay byte-identical and show a committed state the history allows",
 }
